@@ -216,6 +216,20 @@ def fm7(sizes=[], table={"k": 1}, shared=_SHARED_DEFAULT, other=None):   # pylin
   return l2._rec("fm7", locals())  # pylint: disable=protected-access
 
 
+def fv7(a, b=0, *args, k=None):
+  return l2._rec("fv7", locals())  # pylint: disable=protected-access
+
+
+def varargs_gap_root(rng):
+  """Fewer non-variadic arguments than there are parameters before *args, and *args holds several values."""
+  kind = rng.choice([fdl.Config, fdl.Partial])
+  inner = kind(fv7, rng.randint(0, 9))
+  inner[fdl.VARARGS:] = [rng.choice(["x", [1], fdl.Config(l2.fa, 1)]) for _ in range(rng.randint(2, 4))]
+  if rng.random() < 0.3:
+    inner.k = [inner[fdl.VARARGS:][0]]
+  return rng.choice([lambda: inner, lambda: fdl.Config(l2.fd, x=[inner], y=inner)])()
+
+
 def default_object_root(rng):
   """Arguments that ARE the callable's own (mutable) default objects - what materialize_defaults or
   `cfg.x = cfg.x` leave behind - with further references to them from other containers."""
@@ -263,6 +277,9 @@ def run(tier: str, seed: int) -> Result:
       from harness import c14
       c14.tag_positional(rng, root)    # tags on positional (index) arguments, set or not, and on **kwargs entries
     one_case(rng, res, intern, stream, root, f"cfg#{i}")
+  for i in range(30 if tier == "quick" else 400):
+    res.count("varargs-gap-root")
+    one_case(rng, res, intern, stream, varargs_gap_root(rng), f"varargs-gap#{i}")
   for i in range(40 if tier == "quick" else 600):
     res.count("default-object-root")
     one_case(rng, res, intern, stream, default_object_root(rng), f"default-object#{i}")
